@@ -433,6 +433,7 @@ NATIVE_PAIRS = [
     ("parenthesised_local_recursive_function", "start :: fn do\n    fac :: fn n: int -> int do\n    " + FACT + "    end\n    pr(fac(3))\nend\n", "start :: fn do\n    fac :: (fn n: int -> int do\n    " + FACT + "    end)\n    pr(fac(3))\nend\n"),
     ("arrow_onto_lambda_callee", "start :: fn do\n    pr((fn g: fn int -> int, y: int -> int do ret g(y) end)((fn q: int -> int do ret q + 1 end), 2))\nend\n", "start :: fn do\n    pr((fn q: int -> int do ret q + 1 end) -> (fn g: fn int -> int, y: int -> int do ret g(y) end)(2))\nend\n"),
     ("blank_line_in_prime_call_continuation", HEAD + "start :: fn do\n    x := add' 1,\n        2\n    pr(x)\nend\n", HEAD + "start :: fn do\n    x := add' 1,\n\n        2\n    pr(x)\nend\n"),
+    ("blank_and_comment_lines_before_leading_comma_continuation", HEAD + "start :: fn do\n    x := add' 1\n        , 2\n    pr(x)\nend\n", HEAD + "start :: fn do\n    x := add' 1\n\n        // the second one\n\n        , 2\n    pr(x)\nend\n"),
     ("comment_line_in_prime_call_continuation", HEAD + "start :: fn do\n    x := add' 1,\n        2\n    pr(x)\nend\n", HEAD + "start :: fn do\n    x := add' 1,\n        // the second one\n        2\n    pr(x)\nend\n"),
     ("prime_in_arrow_in_multiline_args", HEAD + "start :: fn do\n    pr(add(add(1, 2), inc(3)))\nend\n", HEAD + "start :: fn do\n    pr(\n        (add' 1, 2) -> add(\n            // the second argument\n            inc' 3\n        )\n    )\nend\n"),
     ("indentation_and_blank_lines", HEAD + "start :: fn do\n    x := add(1, 2)\n    if x > 1 do\n        pr(x)\n    end\nend\n", HEAD + "\n\nstart :: fn do\n\n  x := add(1,2)\n\n\t\tif x > 1 do // c\n// c\n pr( x )\n\n            end\n// c\nend\n\n// c\n"),
@@ -440,6 +441,65 @@ NATIVE_PAIRS = [
     ("trailing_if_expression", HEAD + "sg :: fn a: int -> int do\n    ret if a > 0 do 1 else 0 end\nend\nstart :: fn do\n    pr(sg(1))\nend\n", HEAD + "sg :: fn a: int -> int do\n    if a > 0 do 1 else 0 end\nend\nstart :: fn do\n    pr(sg' 1)\nend\n"),
     ("collections_over_lines", "start :: fn do\n    l := [1, 2, 3]\n    t := (1, \"a\", [2])\n    pr(l, t)\nend\n", "start :: fn do\n    l := [\n        1,\n        2, // two\n        3\n    ]\n    t := (\n        1,\n        \"a\",\n        [\n            2\n        ]\n    )\n    pr(\n        l,\n        t\n    )\nend\n"),
 ]
+
+
+# ------------------------------------------------------------------ the repo's own programs under layout changes (thorough tier)
+def corpus_layout(art, fnd, limit=None):
+    """every accepted program of tests/**/*.sy is re-laid-out (blank line / comment line before every line, trailing comment on every
+    line, deeper indentation - never inside a multi-line token) and must still compile to the same Lua (modulo the line of <!>)"""
+    import shutil, subprocess, tempfile
+    from luasym import runner
+    from checks import C07
+    root = common.repo_path("tests")
+    work = tempfile.mkdtemp(prefix="c14c_", dir=common.SCRATCH)
+    n = 0
+    try:
+        shutil.copytree(root, os.path.join(work, "tests"))
+        files = runner.corpus(os.path.join(work, "tests"))
+        if limit: files = files[:: max(1, len(files) // limit)]
+        def one(f):
+            res = []
+            text = open(f, errors="surrogateescape").read()
+            base = subprocess.run([art["sylt"], "-o", "-", f], cwd=work, capture_output=True, text=True, errors="surrogateescape", timeout=120)
+            if base.returncode != 0: return res
+            # a program that some module imports back under its own file name cannot be compiled under another name
+            stem = os.path.basename(f)[:-3]; d_ = os.path.dirname(f)
+            if stem == "exports": return res          # a folder's exports.sy is addressed by its file name (`use /`)
+            for g_ in os.listdir(d_):
+                if g_.endswith(".sy") and not g_.startswith("c14_") and g_ != os.path.basename(f) and re.search(r"^(use|from)\s+[/\w]*\b%s\b" % re.escape(stem), open(os.path.join(d_, g_), errors="replace").read(), re.M): return res
+            out = subprocess.run([art["replay"], "tokens", f], capture_output=True, text=True, errors="surrogateescape", timeout=60).stdout
+            inside = set()
+            for mm in re.finditer(r"line_start: (\d+), line_end: (\d+)", out):
+                a, b = int(mm.group(1)), int(mm.group(2))
+                for l in range(a + 1, b + 1): inside.add(l)          # these lines begin inside a multi-line token
+                if b > a:
+                    for l in range(a, b): inside.add(-l)             # and these lines end inside one
+            lines = text.split("\n")
+            def variant(kind):
+                o = []
+                for i, ln in enumerate(lines, 1):
+                    if kind == "blank" and i not in inside: o.append("")
+                    if kind == "comment_line" and i not in inside: o.append("// c14")
+                    if kind == "indent" and i not in inside and ln.strip(): ln = "  " + ln
+                    if kind == "trailing_comment" and -i not in inside and ln.strip() and not ln.lstrip().startswith("//"): ln = ln + " // c14"
+                    o.append(ln)
+                return "\n".join(o)
+            for kind in ("blank", "comment_line", "indent", "trailing_comment"):
+                g = os.path.join(os.path.dirname(f), "c14_%s_%s" % (kind, os.path.basename(f)))
+                open(g, "w", errors="surrogateescape").write(variant(kind))
+                r = subprocess.run([art["sylt"], "-o", "-", g], cwd=work, capture_output=True, text=True, errors="surrogateescape", timeout=120)
+                os.remove(g)
+                if r.returncode != 0: res.append((kind, f, "rejected: " + (r.stdout + r.stderr)[-200:].replace("\n", " "), variant(kind), text))
+                elif norm(r.stdout) != norm(base.stdout): res.append((kind, f, "emitted Lua differs", variant(kind), text))
+            return res
+        from concurrent.futures import ThreadPoolExecutor
+        with ThreadPoolExecutor(16) as tp: allres = list(tp.map(one, files))
+        n = 4 * len(files)
+        for res in allres:
+            for kind, f, why, vtext, text in res:
+                fnd.report("corpus-layout:%s" % kind, "tests/%s with a %s on every line: %s" % (os.path.relpath(f, os.path.join(work, "tests")), kind.replace("_", " "), why), {"plain.sy": text, "variant.sy": vtext}, cmd="sylt -o a.lua plain.sy; sylt -o b.lua variant.sy; cmp a.lua b.lua")
+    finally: shutil.rmtree(work, ignore_errors=True)
+    return n
 
 
 def run(tier):
@@ -496,6 +556,7 @@ def run(tier):
             except IndexError: continue
             why = native_same(art["sylt"], "pr: fn *X -> void : external\n" + a, "pr: fn *X -> void : external\n" + b); nat += 1
             if why: fnd.report("sugar:%s:native" % name, "template %s: plain spelling vs surface form #%d at every site: %s" % (name, alt, why), {"a.sy": a, "b.sy": b})
+    nat += corpus_layout(art, fnd, limit=24 if tier == "quick" else None)
     cov = {"states": max(1, tot["paths"]), "transitions": max(1, tot["queries"]), "traces_validated_against_impl": nat, "samples": samples or [{"note": "none"}], "sugar_templates": len(jobs_a), "layout_jobs": nl, "mir_statements": tot["steps"],
            "functions_encoded": ["sylt_parser::module (+ statement, expression, assignable_call, arrow_call, Context::skip/prev/push_skip_newlines ..)", "name_resolution::resolve", "dependency::initialization_order", "typechecker::solve", "intermediate::compile"],
            "bounds": {"surface_sites_per_template": "<= 4, each over 2..5 forms (all combinations)", "layout_fillers_per_job": width, "filler_kinds": ["Comment", "Newline"], "literal_kinds": ["int", "float", "str", "bool"]}, "known_findings_seen": sorted(fnd.seen_known)}
